@@ -68,13 +68,15 @@ pub fn check_coord(c: &CoordCase) -> Verdict {
         co.set_coordinate(&s);
         let co_vals = (*co.get_col_num(), *co.get_row_num(), *co.get_is_lock_col(), *co.get_is_lock_row());
         let co_str = co.get_coordinate();
+        #[allow(clippy::to_string_in_format_args)]
+        let co_display = co.to_string();
         let cc = CellCoordinates::from(s.as_str());
         let plain = coordinate_from_index(&c.col, &c.row);
-        (s, back, co_vals, co_str, (cc.col, cc.row), plain)
+        (s, back, co_vals, co_str, (cc.col, cc.row), plain, co_display)
     });
     match r {
         Err(p) => Verdict::fail(format!("coord/panic:{}", p.site()), p.short()),
-        Ok((s, back, co_vals, co_str, cc, plain)) => {
+        Ok((s, back, co_vals, co_str, cc, plain, co_display)) => {
             if s != expect {
                 return Verdict::fail("coord/print", format!("printed {:?}, expected {:?}", s, expect));
             }
@@ -83,6 +85,9 @@ pub fn check_coord(c: &CoordCase) -> Verdict {
             }
             if co_vals != (c.col, c.row, c.lock_col, c.lock_row) || co_str != expect {
                 return Verdict::fail("coord/struct", format!("Coordinate {:?} -> {:?} {:?}", s, co_vals, co_str));
+            }
+            if co_display != expect {
+                return Verdict::fail("coord/struct-to-string", format!("Coordinate {:?} prints (to_string) as {:?}", s, co_display));
             }
             if cc != (c.col, c.row) {
                 return Verdict::fail("coord/cellcoordinates", format!("CellCoordinates {:?} -> {:?}", s, cc));
